@@ -145,6 +145,9 @@ def constraint_specs():
             "cancel": st.one_of(st.none(), st.integers(0, 40)),
             "subs_form": _pick(["dict", "dict", "pairs", "seq"]),
             "readme": _pick([None, None, None, "to_qubo", "to_quso"]),
+            # one linear term on a label of its own (no constraint touches it) whose coefficient is an exact number that
+            # binary floating point cannot hold: it has to come through subs() unchanged
+            "exact_term": _pick([None, None, None, ["I", 62, 1], ["I", 53, 1], ["F", 1, 3], ["F", -7, 10]]),
         }))
     return st.sampled_from(["PCBO", "PCSO"]).flatmap(for_kind)
 
@@ -250,9 +253,22 @@ def _compare(B, N, exact, what, detail, mass=0.0):
     for k, v in db.items():
         if _has_symbols(v):
             raise Violation("symbol_remains/%s" % what, "key %r still %r after subs; %s" % (k, v, detail))
-    scale = sum(abs(v) for v in db.values()) + sum(abs(v) for v in dn.values()) + mass
+    from fractions import Fraction
+
+    def is_exact_number(v):
+        return isinstance(v, (int, Fraction)) and not isinstance(v, bool)
+    # coefficients that are exact python numbers on the numeric side (big ints, Fractions) must be reproduced exactly;
+    # they are kept out of the tolerance scale of the other keys
+    exact_keys = {k for k, v in dn.items() if is_exact_number(v) and (isinstance(v, Fraction) or abs(v) >= 2 ** 53)}
+    scale = sum(abs(v) for k, v in db.items() if k not in exact_keys) + \
+        sum(abs(v) for k, v in dn.items() if k not in exact_keys) + mass
     tol = 0.0 if exact else 1e-9 * scale
-    for k in db.keys() | dn.keys():
+    for k in exact_keys:
+        a, b = db.get(k), dn.get(k)
+        if a is None or type(a) is not type(b) or a != b:
+            raise Violation("exact_coefficient_changed/%s" % what,
+                            "key %r: numeric build has the exact number %r, the substituted model %r; %s" % (k, b, a, detail))
+    for k in (db.keys() | dn.keys()) - exact_keys:
         a, b = db.get(k), dn.get(k)
         if a is None or b is None:
             present = a if b is None else b
@@ -335,6 +351,10 @@ def _build_constrained(qv, spec, w, numeric_values):
     spin = kind == "PCSO"
     cls = gen.cls_of(qv, kind)
     H = gen.build(qv, kind, spec["objective"])
+    et = spec.get("exact_term")
+    if et:
+        from fractions import Fraction
+        H[("zz_exact",)] += (2 ** et[1] + et[2]) if et[0] == "I" else Fraction(et[1], et[2])
     if spec["sym_obj"]:
         H += w[MU] * cls(gen.terms_dict(spec["sym_obj"]))
     for c in spec["calls"]:
@@ -458,7 +478,9 @@ def _run_constraints(spec, rec, qv):
         rec.add("observed/mapping_or_variables_differ")
 
     # 5. README workflow: reduce the symbolic model with the default penalty, substitute afterwards
-    if spec["readme"]:
+    # (with an exact big coefficient in the model the float arithmetic of the conversions is no longer exact, so the
+    # README-workflow comparison, which relies on exactness, is left to the cases without one)
+    if spec["readme"] and not spec.get("exact_term"):
         form = spec["readme"]
         same_shape = (list(dict(A)) == list(dict(N)) and A.mapping == N.mapping
                       and A.num_binary_variables == N.num_binary_variables)
